@@ -150,7 +150,9 @@ namespace options
 
                     while (std::getline(str, element, ';'))
                     {
-                        update_value(element);
+                        // take the value as it is, it must not be interpreted as a command line argument
+                        dirty_ = true;
+                        value_.push_back(element);
                     }
 
                     return;
